@@ -345,7 +345,7 @@ func genTotality(r *Rng, phase string) []*Scenario {
 		if r.Chance(0.7) {
 			rs.Fault = FaultScn{Kind: "error", At: r.Intn(len(doc) + 1), Err: r.Pick(faultErrKinds), WithData: r.Chance(0.5)}
 		}
-		s.Writer = &WriterScn{Flavour: r.Pick([]string{"writer", "stringwriter"}), FailAt: -1, ByteBudget: -1}
+		s.Writer = &WriterScn{Flavour: r.Pick(writerFlavours), FailAt: -1, ByteBudget: -1}
 		if r.Chance(0.5) {
 			s.Writer.FailAt = r.Intn(12)
 			s.Writer.Partial = r.Intn(4)
@@ -481,14 +481,17 @@ func genSink(r *Rng) []*Scenario {
 	}()
 	W := hw.Calls
 	for j := 0; j < W && j < 600; j++ {
-		for _, fl := range []string{"writer", "stringwriter"} {
+		for _, fl := range writerFlavours {
+			if fl == "richwriter" && !tierThorough && j%3 != 0 {
+				continue // quick tier: every third failure point for the third flavour
+			}
 			out = append(out, &Scenario{Property: "C20", Phase: "fail-at", Doc: doc,
 				Writer: &WriterScn{Flavour: fl, FailAt: j, ByteBudget: -1, Partial: (j % 3)}})
 		}
 	}
 	for i := 0; i < 4 && len(hw.Buf) > 0; i++ {
 		out = append(out, &Scenario{Property: "C20", Phase: "byte-budget", Doc: doc,
-			Writer: &WriterScn{Flavour: r.Pick([]string{"writer", "stringwriter"}), FailAt: -1, ByteBudget: r.Intn(len(hw.Buf))}})
+			Writer: &WriterScn{Flavour: r.Pick(writerFlavours), FailAt: -1, ByteBudget: r.Intn(len(hw.Buf))}})
 	}
 	return out
 }
@@ -504,7 +507,7 @@ func genSinkInterleaved(r *Rng) []*Scenario {
 			if t.Kind != "format" {
 				*t = TaskScn{Kind: "format"}
 				if r.Chance(0.25) {
-					t.Writer = &WriterScn{Flavour: r.Pick([]string{"writer", "stringwriter"}), FailAt: r.Intn(30), ByteBudget: -1}
+					t.Writer = &WriterScn{Flavour: r.Pick(writerFlavours), FailAt: r.Intn(30), ByteBudget: -1}
 				}
 			}
 		}
@@ -691,6 +694,9 @@ func evaluate(s *Scenario, st *runStats) (fail *Failure) {
 					st.Faults["write_failure_at_index"]++
 				} else {
 					st.Faults["write_failure_byte_budget"]++
+				}
+				if s.Writer.Flavour == "richwriter" {
+					st.Probes["richwriter_flavour"]++
 				}
 				if s.Writer.Flavour == "stringwriter" {
 					st.Probes["stringwriter_flavour"]++
